@@ -11,8 +11,21 @@ namespace wiregen {
 
 inline std::string corrupt_structured(wiregen::Rng &r, wire::Msg m) {
   // single-site corruption expressed on the message structure, then marshalled as is
-  int k = (int)r.below(18);
+  int k = (int)r.below(20);
   switch (k) {
+    case 18: case 19: {
+      // a string that is not valid UTF-8 / contains NUL, the bad bytes anywhere inside runs of plain ASCII of any
+      // length (validators have word-at-a-time fast paths), alone or inside an array
+      static const char *bad[] = {"\0", "\x80", "\xc0\x80", "\xed\xa0\x80", "\xf4\x90\x80\x80", "\xe2\x82", "\xff", "\xc1\xbf", "\xf8\x88\x80\x80\x80"};
+      static const size_t badlen[] = {1, 1, 2, 3, 4, 2, 1, 2, 5};
+      uint32_t bi = r.below(9);
+      std::string sv = std::string(r.below(r.chance(50) ? 12 : 40), 'a') + std::string(bad[bi], badlen[bi]) + std::string(r.below(r.chance(50) ? 12 : 40), 'b');
+      auto b = m.body;
+      if (k == 18) b.push_back(wire::Value::string(sv));
+      else b.push_back(wire::Value::array("s", {wire::Value::string("ok"), wire::Value::string(sv)}));
+      m.set_body(b);
+      break;
+    }
     case 14: { auto b = m.body; wire::Value bad = wire::Value::boolean(true); bad.u = 2 + r.below(1000); std::vector<wire::Value> el = {wire::Value::boolean(false), bad, wire::Value::boolean(true)};
                b.push_back(wire::Value::array("b", el)); m.set_body(b); break; }                                                   // boolean out of range INSIDE an array
     case 15: { std::vector<wire::Value> el(1 + 2 * r.below(3), wire::Value::byte(7)); m.set_body({wire::Value::array("y", el)}); m.set_field(wire::F_SIGNATURE, wire::Value::sigval(r.chance(50) ? "aq" : "an")); break; }   // fixed array, length not a multiple of the item size
